@@ -13,7 +13,7 @@
    number of cells the frame had when the scope was formed: the reference evaluator only sees that prefix (lexical
    scoping), the Go code sees the whole map (a closure made while a dolist/dotimes/do* frame is still being filled
    later sees the cells added afterwards).  No definition in this file is mode-dependent except through the small
-   functions [store_red], [truthy], [or_step], [last_red], [locate_m], [short_args], [neg_count]:
+   functions [store_red], [truthy], [or_step], [last_red], [locate_m], [short_args]:
    they are the complete list of places where M and S differ.
 
    Side effects are calls of the harness-defined function (tr k e): evaluates e, appends k to the trace, returns
@@ -213,9 +213,6 @@ Definition last_red (all : bool) (m : mode) (v : val) : out val :=
 (* Lambda.Call with fewer arguments than parameters binds what it has (the rest stays unbound) *)
 Definition short_args (m : mode) : out unit :=
   match m with Slip => Ok tt | Ref => Er EArity | Chk => Er EDev end.
-(* dotimes: the variable is finally bound to the count; the language says to the number of iterations *)
-Definition neg_count (m : mode) (n : Z) : out Z :=
-  if (n <? 0)%Z then match m with Slip => Ok n | Ref => Ok 0%Z | Chk => Er EDev end else Ok n.
 
 (* ---------------------------------------------------------------------------------------------- built-ins *)
 Definition big : Z := 4611686018427387904%Z.             (* 2^62: beyond it fixnum arithmetic is C05's *)
@@ -570,7 +567,8 @@ Definition evalF (st : state) (sc : scope) (e : expr) : result :=
       | VInt k =>
           let sc1 := (f, 1) :: sc in
           bind (ev_iter (bind_in st2 f x VNil) sc1 f x (map (fun i => VInt (Z.of_nat i)) (seq 0 (Z.to_nat k))) es)
-               (fun _ st3 => bindo (neg_count m k) st3 (fun k' => ev_opt (bind_in st3 f x (VInt k')) sc1 r))
+               (* the variable is finally bound to the number of iterations: 0 for a negative count (after the repair) *)
+               (fun _ st3 => ev_opt (bind_in st3 f x (VInt (Z.max k 0))) sc1 r)
       | _ => (Er EType, st2)
       end))
   | EDo false bs test rs es =>
